@@ -146,6 +146,7 @@ Lemma reroot_outgroup_keep_inv strict t names t' :
     cut_and_root (tv_tree v) pp ks (is_prefix (pp ++ [ks]) (tv_root v)) (half_edge e) (half_edge e) = Some t'.
 Proof.
   unfold reroot_outgroup. intros H. cbv zeta in *.
+  destruct (Nat.ltb (length (tips t)) 3); [discriminate|].
   set (t1 := unroot t) in *. set (grp := group t1 names) in *.
   destruct (has_dup (node_names t1)) eqn:Hdup; [discriminate|].
   destruct (Nat.eqb (length grp) 0) eqn:Hk; [discriminate|].
